@@ -1123,6 +1123,13 @@ func (t *TS) call(s *State, call *ssa.Call) []*State {
 		}
 	}
 	var recvArgs []AV // receiver(s) that do not travel in cc.Args: bound method values, interface calls
+	if callee == nil && !cc.IsInvoke() {
+		// a call through a function-typed variable that the call graph resolves to one go-nfsd function
+		// ("var beginTxn = fstxn.Begin")
+		if cands := t.c.P.Callees(call); len(cands) == 1 && IsRepoFunc(cands[0]) && cands[0].Parent() == nil && cands[0].Synthetic == "" {
+			callee = cands[0]
+		}
+	}
 	if callee == nil && cc.IsInvoke() {
 		// a call through an (unexported) interface with one implementation in the program: that method
 		if cands := t.c.P.Callees(call); len(cands) == 1 && IsRepoFunc(cands[0]) {
